@@ -623,6 +623,20 @@ func leafEnv(info *types.Info, fd *ast.FuncDecl) map[types.Object]leafBinding {
 			if id, ok := x.Value.(*ast.Ident); ok && id.Name != "_" {
 				env[info.ObjectOf(id)] = leafBinding{src, kind}
 			}
+		case *ast.CallExpr:
+			// maps.Iterate(X, func(k, v) {...}): the callback's parameters are key and element of X
+			if o := load.Callee(info, x); o != nil && o.Name() == "Iterate" && len(x.Args) == 2 {
+				if fl, ok := ast.Unparen(x.Args[1]).(*ast.FuncLit); ok {
+					var ps []*ast.Ident
+					for _, f := range fl.Type.Params.List {
+						ps = append(ps, f.Names...)
+					}
+					if len(ps) == 2 {
+						env[info.ObjectOf(ps[0])] = leafBinding{x.Args[0], "key"}
+						env[info.ObjectOf(ps[1])] = leafBinding{x.Args[0], "mapelem"}
+					}
+				}
+			}
 		case *ast.AssignStmt:
 			if len(x.Lhs) == 1 && len(x.Rhs) == 1 && x.Tok == token.DEFINE {
 				if id, ok := x.Lhs[0].(*ast.Ident); ok {
@@ -705,7 +719,7 @@ func c11ReportAll(e *Env) {
 	// ValidateVersion's early returns are skip conditions, not loop exits; the lint only looks inside loops
 	loopExitRule(e, "R11.4", inputRel, "a later violation is not reported in the same run", names...)
 	loopExitRule(e, "R11.4", compilerRel, "a later violation is not reported in the same run", "resolveArgs", "StepCompileServices.serviceCalls", "StepCompileServices.serviceFields", "StepCompileServices.Process", "StepCompileParams.Process", "StepCompileDecorators.Process", "StepCompileMeta.handleImports")
-	loopExitRule(e, "R11.4", outputRel, "a later violation is not reported in the same run", "validateParamsExistsInParams", "validateParamsExistsInServices", "validateServicesExistsInServices", "validateServicesExistsInDecorators", "ValidateServicesScopes")
+	loopExitRule(e, "R11.4", outputRel, "a later violation is not reported in the same run", reachableNames(e, outputRel, "ValidateParamsExist", "ValidateServicesExist", "ValidateServicesScopes")...)
 	loopExitRule(e, "R11.4", "internal/pkg/token", "a later malformed token is not reported", "Tokenizer.Tokenize")
 	c10Amalgamated(e, "R11.4")
 	// sibling completeness: every function of a validator signature is in its list
